@@ -77,6 +77,11 @@ Record pconfig := {
   pc_hier : bool;                  (* Gen: NoAvailablePort <= OSError *)
   pc_fin : list string;            (* Gen.Dispatch: d_finally dispatcher *)
   pc_loop_open : bool;
+  pc_giveback : bool;              (* Gen.PortPool: _start_passive_server has the `except BaseException` give-back
+                                      (close what is bound, put (priority, port), re-raise) and keeps the handle of
+                                      the bound listener (start_serving split).  false on the current source (F5) *)
+  pc_recheck : bool;               (* Gen.PortPool: after the start-up, a listener stored meanwhile by an overlapping
+                                      PASV/EPSV is kept and this one is given back.  false on the current source (F5b) *)
 }.
 
 Definition pinit (cfg : pconfig) : pstate :=
@@ -106,6 +111,11 @@ Definition sports (s : psess) : list Z := opt_list (p_passive s) ++ map su_port 
 Definition bound_of (s : psess) : list Z :=
   opt_list (p_passive s) ++ map su_port (filter (fun su => su_point su =? 2) (p_inflight s)).
 Definition listeners (st : pstate) : list Z := flat_map bound_of (pp_sess st) ++ pp_orphans st.
+
+(* what the cancellation of start-ups in flight does to the pool: with the give-back handler every port goes back
+   with the priority it was taken with; without it (current source) nothing happens *)
+Definition give_back (cfg : pconfig) (infl : list startup) (pool : list item) : list item :=
+  if pc_giveback cfg then fold_left (fun acc su => put (su_prio su, su_port su) acc) infl pool else pool.
 
 (* ------------------------------------------------------------------ the finally block *)
 Definition is_char (c : ascii) (n : nat) : bool := Nat.eqb (nat_of_ascii c) n.
@@ -173,22 +183,25 @@ Fixpoint put_n (n : nat) (x : item) (l : list item) : list item :=
 
 (* the dispatcher's finally for session i, plus the cancellation of its pasv/epsv tasks: a task
    suspended inside start_server gets CancelledError there; that is not an OSError, nothing gives
-   its port back, and at point 2 the listener that was already bound stays bound *)
+   its port back, and at point 2 the listener that was already bound stays bound (pc_giveback = false,
+   the current source); with the give-back handler the port returns with its priority and the bound
+   listener, whose handle the coroutine holds, is closed *)
 Definition end_psess (cfg : pconfig) (i : nat) (st : pstate) : pstate :=
   match nth_error (pp_sess st) i with
   | None => st
   | Some s =>
       if p_live s then
         let dead := {| p_live := false; p_passive := None; p_inflight := [] |} in
-        let cancelled := map su_port (p_inflight s) in
-        let half := map su_port (filter (fun su => su_point su =? 2) (p_inflight s)) in
+        let cancelled := if pc_giveback cfg then [] else map su_port (p_inflight s) in
+        let half := if pc_giveback cfg then []
+                    else map su_port (filter (fun su => su_point su =? 2) (p_inflight s)) in
         match p_passive s with
         | None =>
-            {| pp_pool := pp_pool st; pp_sess := upd i (fun _ => dead) (pp_sess st);
+            {| pp_pool := give_back cfg (p_inflight s) (pp_pool st); pp_sess := upd i (fun _ => dead) (pp_sess st);
                pp_orphans := pp_orphans st ++ half; pp_lost := pp_lost st ++ cancelled |}
         | Some p =>
             let '(closed, n) := fold_left (papply cfg s) (map pclassify (pc_fin cfg)) (false, 0%nat) in
-            {| pp_pool := put_n n (0, p) (pp_pool st);
+            {| pp_pool := give_back cfg (p_inflight s) (put_n n (0, p) (pp_pool st));
                pp_sess := upd i (fun _ => dead) (pp_sess st);
                pp_orphans := pp_orphans st ++ (if closed then [] else [p]) ++ half;
                pp_lost := pp_lost st ++ (match n with O => [p] | _ => [] end) ++ cancelled |}
@@ -292,6 +305,13 @@ Definition pstep (cfg : pconfig) (st : pstate) (e : pevent) : pstate * list pout
               else
                 (* start_server returns: passive_server_port = port; connection.passive_server = server.
                    A listener stored before (by an overlapping start-up) is overwritten: nobody owns it *)
+                if pc_recheck cfg && (match p_passive s with Some _ => true | None => false end) then
+                  (* fixed source: the listener stored meanwhile is kept, this one is closed and its port given back *)
+                  ({| pp_pool := put (su_prio su, su_port su) (pp_pool st);
+                      pp_sess := upd i (fun _ => {| p_live := true; p_passive := p_passive s;
+                                                    p_inflight := remove_nth k (p_inflight s) |}) (pp_sess st);
+                      pp_orphans := pp_orphans st; pp_lost := pp_lost st |}, [(i, 227)])
+                else
                 let old := opt_list (p_passive s) in
                 ({| pp_pool := pp_pool st;
                     pp_sess := upd i (fun _ => {| p_live := true; p_passive := Some (su_port su);
@@ -318,24 +338,27 @@ Fixpoint ptrace (cfg : pconfig) (st : pstate) (evs : list pevent) : list (list p
   | e :: r => let (st', o) := pstep cfg st e in (o, st') :: ptrace cfg st' r
   end.
 
-(* "quiet": the event neither cancels a listener start-up nor starts a second one in the same session *)
+(* "quiet": the event neither cancels a listener start-up (harmless once the give-back handler exists) nor
+   starts a second one in the same session *)
 Definition no_inflight (st : pstate) (i : nat) : bool :=
   match nth_error (pp_sess st) i with
   | Some s => match p_inflight s with [] => true | _ => false end
   | None => true
   end.
 
-Definition quiet_ev (st : pstate) (e : pevent) : bool :=
+Definition quiet_ev (cfg : pconfig) (st : pstate) (e : pevent) : bool :=
   match e with
-  | Pasv i | End_ i => no_inflight st i
-  | CloseAll => forallb (fun s => match p_inflight s with [] => true | _ => false end) (pp_sess st)
+  | Pasv i => no_inflight st i
+  | End_ i => pc_giveback cfg || no_inflight st i
+  | CloseAll => pc_giveback cfg
+                || forallb (fun s => match p_inflight s with [] => true | _ => false end) (pp_sess st)
   | _ => true
   end.
 
 Fixpoint quiet_run (cfg : pconfig) (st : pstate) (evs : list pevent) : bool :=
   match evs with
   | [] => true
-  | e :: r => quiet_ev st e && quiet_run cfg (fst (pstep cfg st e)) r
+  | e :: r => quiet_ev cfg st e && quiet_run cfg (fst (pstep cfg st e)) r
   end.
 
 (* ------------------------------------------------------------------ closed checks on Gen facts *)
@@ -389,11 +412,31 @@ Fixpoint ladder_eqb (a b : ladder) : bool :=
 
 (* the machine above is _start_passive_server: same try body, same except ladder, no finally/else;
    pasv and epsv turn NoAvailablePort into 421 + `return False` and catch nothing else *)
+(* Two shapes are understood, and the flags the machine is run with must be the ones the shape justifies:
+   - the current source (giveback = recheck = false): one await (start_server binds AND starts serving: both
+     suspension points inside it, no handle outside), handlers QueueEmpty and OSError only;
+   - the repaired source (giveback = true): handle initialised to None per iteration, start_server(start_serving=False)
+     [suspension point 1, bind], then `await passive_server.start_serving()` [suspension point 2, handle held];
+     OSError and BaseException handlers both close what is bound; BaseException puts (priority, port) and re-raises;
+     optionally (recheck = true) the block that keeps a listener stored meanwhile and gives this one back. *)
+Definition try_today : list string :=
+  ["get"; "viewed?raise:errors.NoAvailablePort"; "view"; "await:start_server"; "setport"; "break"]%string.
+Definition try_fixed (recheck : bool) : list string :=
+  List.app ["init:none"; "get"; "viewed?raise:errors.NoAvailablePort"; "view"; "await:start_server:noserve"; "await:start_serving"]%string
+   (List.app (if recheck then ["recheck:close,put:priority:port,return:connection.passive_server"]%string else [])
+             ["setport"; "break"]%string).
+Definition handlers_today : ladder :=
+  [("asyncio.QueueEmpty", ["raise:errors.NoAvailablePort"]);
+   ("OSError", ["put:priority + 1:port"; "unless:EADDRINUSE=>raise"])]%string.
+Definition handlers_fixed : ladder :=
+  [("asyncio.QueueEmpty", ["raise:errors.NoAvailablePort"]);
+   ("OSError", ["closeif:passive_server"; "put:priority + 1:port"; "unless:EADDRINUSE=>raise"]);
+   ("BaseException", ["closeif:passive_server"; "put:priority:port"; "raise"])]%string.
+
 Definition check_ladder (try_body : list string) (hs : ladder) (has_finally has_else : bool)
-                        (pe : list (string * ladder)) : bool :=
-  slist_eqb try_body ["get"; "viewed?raise:errors.NoAvailablePort"; "view"; "await:start_server"; "setport"; "break"]%string
-  && ladder_eqb hs [("asyncio.QueueEmpty", ["raise:errors.NoAvailablePort"]);
-                    ("OSError", ["put:priority + 1:port"; "unless:EADDRINUSE=>raise"])]%string
+                        (pe : list (string * ladder)) (giveback recheck : bool) : bool :=
+  (if giveback then slist_eqb try_body (try_fixed recheck) && ladder_eqb hs handlers_fixed
+   else negb recheck && slist_eqb try_body try_today && ladder_eqb hs handlers_today)
   && negb has_finally && negb has_else
   && match assoc_s "pasv" pe, assoc_s "epsv" pe with
      | Some a, Some b =>
@@ -423,12 +466,14 @@ Definition string_of_text (t : text) : string :=
 
 Definition nat_of_sx (s : sx) : nat := Z.to_nat (z_of_sx s).
 
-(* config: [ports; hier; fin; loop_open] *)
+(* config: [ports; hier; fin; loop_open; giveback; recheck] *)
 Definition pconfig_of_sx (s : sx) : pconfig :=
   {| pc_ports := map z_of_sx (list_of_sx (nth_sx 0 s));
      pc_hier := bool_of_sx (nth_sx 1 s);
      pc_fin := map (fun t => string_of_text (text_of_sx t)) (list_of_sx (nth_sx 2 s));
-     pc_loop_open := bool_of_sx (nth_sx 3 s) |}.
+     pc_loop_open := bool_of_sx (nth_sx 3 s);
+     pc_giveback := bool_of_sx (nth_sx 4 s);
+     pc_recheck := bool_of_sx (nth_sx 5 s) |}.
 
 (* event: [tag; i; k; outcome] *)
 Definition pevent_of_sx (s : sx) : pevent :=
